@@ -46,6 +46,10 @@ def main(argv=None):
         from simkit import selftest
 
         return selftest.determinism(args)
+    if args.what == "selftest-crashmodel":
+        from simkit import selftest
+
+        return selftest.crashmodel(args)
     if args.what == "sensitivity":
         from simkit import selftest
 
